@@ -77,6 +77,9 @@ def mk_types():
         ('bin', ['10', '11100'], lambda v: v, None), ('hex', ['f', 'a5c'], lambda v: ib(int(v, 16), 4 * len(v)), None), ('oct', ['7', '12'], lambda v: ib(int(v, 8), 3 * len(v)), None),
         ('bits', ['0b1', '0xff0'], lambda v: ib(int(v, 0), len(v) - 2 if v.startswith('0b') else 4 * (len(v) - 2)), lambda v: ib(int(v, 0), len(v) - 2 if v.startswith('0b') else 4 * (len(v) - 2))),
         ('bytes', [b'a', b'xyz'], lambda v: ''.join(format(x, '08b') for x in v), None))])
+    # zero-length tokens are legal and contribute nothing - but only with an empty value
+    add('zero', [Tok('zero', s, 0, [v, v], lambda x: '', norm=(lambda x: '') if s.startswith(('bits', '0')) else None, kw=kw, takes_value=tv)
+                 for s, v, kw, tv in (('bits:0', '', None, True), ('hex:0', '', None, True), ('bin:0', '', None, True), ('pad:0', None, None, False), ('bits:z', '', {'z': 0}, True), ('oct0', '', None, True))])
     return T
 
 
@@ -146,7 +149,7 @@ def expected_bits(toks, per):
 def expected_unpack(toks, per):
     out = []
     for t, v in zip(toks, per):
-        if t.typ == 'pad':
+        if t.typ == 'pad' or t.spell.startswith('pad'):
             continue
         if t.typ == 'struct':
             out += list(v)
@@ -351,9 +354,12 @@ def errors(bs, acc):
     """Wrongly sized values raise CreationError."""
     cases = [('hex:8', ['abc']), ('hex:8', ['a']), ('bin:3', ['10']), ('bin:3', ['1010']), ('oct:6', ['7']), ('bits:4', ['0b101']), ('bits:4', ['0x12']), ('bytes:2', [b'a']), ('bytes:2', [b'abc']),
              ('uint:5', [32]), ('uint:5', [-1]), ('int:7', [64]), ('int:7', [-65]), ('>h', [40000]), ('<H', [-1]), ('2*u4', [1, 16]), ('u4, 2*(hex4)', [1, 'a', 'ab']), ('ue', [-1]), ('uie', [-2]),
-             ('bool', [2]), ('float:32', ['x']), ('u5, hex:8', [1, 'a5f']), ('hex:8, u5', ['a5', 32]), ('uintle:16', [65536]), ('intbe:16', [-32769]), ('4', ['0b1']), ('uint:n', [8])]
+             ('bool', [2]), ('float:32', ['x']), ('bits:0', ['0xff']), ('bits:0', ['0b1']), ('0', ['0b1']), ('bits:0, uint:8', ['0xff', 1]), ('uint:8, bits:0', [1, '0b0']),
+             ('hex:0', ['a']), ('bin:0', ['1']), ('oct:0', ['7']), ('bytes:0', [b'a']), ('2*bits:0', ['', '0b1']), ('u5, hex:8', [1, 'a5f']), ('hex:8, u5', ['a5', 32]), ('uintle:16', [65536]), ('intbe:16', [-32769]), ('4', ['0b1']), ('uint:n', [8])]
     for fmt, vals in cases:
-        kw = {'n': 3} if 'n' in fmt.split(':')[-1:] and fmt == 'uint:n' else {}
+        kw = {'n': 3} if fmt == 'uint:n' else {}
+        if fmt == 'bits:0' and vals == ['0b1']:
+            fmt, kw = 'bits:n', {'n': 0}
         got = obs(lambda: bs.pack(fmt, *vals, **kw))
         acc.state(('err', fmt, repr(vals)))
         acc.step('size', 1, nontrivial=1, rej=1)
